@@ -27,10 +27,11 @@ def cumulative_trapezoid(y, dt):
     return out
 
 
-def velocity(acc, dt):
+def velocity(acc, dt, eps=EPS):
     """Velocity of the record from its definition (C08): cumulative trapezoid of the acceleration, v[0] = 0.
-    Returns (v, err): err bounds the rounding error any floating-point evaluation of that running sum can carry
-    ((n+2) * eps * sum of |panel|); the velocity-based final values widen their allowance by its propagation."""
+    Returns (v, err): err bounds the rounding error an evaluation of that running sum in arithmetic of unit
+    round-off eps can carry ((n+2) * eps * sum of |panel|); the velocity-based final values widen their allowance
+    by its propagation."""
     v = [0.0]
     s = 0.0
     tot = 0.0
@@ -39,7 +40,7 @@ def velocity(acc, dt):
         s += p
         tot += abs(p)
         v.append(s)
-    return v, (len(acc) + 2) * EPS * tot
+    return v, (len(acc) + 2) * eps * tot
 
 
 def arias_final(acc, dt):
@@ -78,16 +79,17 @@ def samples_per_second(dt, rel=1e-9):
     return (pps >= 1 and abs(r - pps) <= rel * pps), pps
 
 
-def cav_dp_windows(acc, dt, pps, exact_g=False, ulps=4):
+def cav_dp_windows(acc, dt, pps, exact_g=False, ulps=4, eps=EPS):
     """One entry per complete one-second window [w*pps, (w+1)*pps] of the record:
         {'w', 'max_g', 'status' ('in' | 'out' | 'ambiguous'), 'integral', 'panel'}
     integral = trapezoid of |a|/9.81 over the window, panel = its largest single panel (the slack the statement
     grants per window). The gate max|a|/9.81 >= 0.025 is decided strictly when exact_g (the record was built in g
-    units and a/9.81 reproduces them exactly); otherwise a maximum within `ulps` of the gate is ambiguous."""
+    units and a/9.81 reproduces them exactly); otherwise a maximum within `ulps` (in units of eps, the unit round-off of the record's dtype) of the gate is
+    ambiguous."""
     n = len(acc)
     q = [abs(a) / G for a in acc]
     nwin = (n - 1) // pps
-    band = ulps * EPS * GATE_G
+    band = ulps * eps * GATE_G
     out = []
     for w in range(nwin):
         lo, hi = w * pps, (w + 1) * pps
